@@ -3003,3 +3003,59 @@ Proof.
   - vm_compute. repeat split; discriminate.
 Qed.
 End HsWitness2.
+
+
+(* ------------------------------------------------------------------------------------------ *)
+(** * L. segmentation and WouldBlock together *)
+
+Lemma strip_run_res : forall x, hs_res (strip_run x) = hs_res x.
+Proof. intros [[res w'] log]. reflexivity. Qed.
+
+Lemma strip_run_wire : forall x, hs_wire (hs_log (strip_run x)) = hs_wire (hs_log x).
+Proof. intros [[res w'] log]. cbn [strip_run hs_log snd]. apply strip_ev_wire. Qed.
+
+(* two transports that, once their WouldBlocks are deleted, differ only in how the peer's handshake
+   bytes are cut into reads *)
+Theorem server_segmentation_wb : forall oreq oresp cb wA wB w0 csA csB t,
+  seq_scan oreq ->
+  nonempty_chunks csA -> nonempty_chunks csB -> concat csA = concat csB ->
+  (forall n x, oreq (concat csA) = OComplete n x -> n = blen (concat csA)) ->
+  strip_world wA = w_set_rds w0 (map RdData csA ++ t) ->
+  strip_world wB = w_set_rds w0 (map RdData csB ++ t) ->
+  let xA := server_handshake oreq oresp cb wA in
+  let xB := server_handshake oreq oresp cb wB in
+  hs_res xA <> HsFail HEAttack -> hs_res xB <> HsFail HEAttack ->
+  hs_res xA = hs_res xB /\ hs_wire (hs_log xA) = hs_wire (hs_log xB).
+Proof.
+  intros oreq oresp cb wA wB w0 csA csB t Hscan HA HB Hcat Hnj EA EB xA xB HnA HnB.
+  subst xA xB.
+  pose proof (server_resume oreq oresp cb wA) as RA.
+  pose proof (server_resume oreq oresp cb wB) as RB.
+  rewrite EA in RA. rewrite EB in RB.
+  pose proof (server_segmentation oreq oresp cb w0 csA csB t Hscan HA HB Hcat Hnj) as S.
+  cbv zeta in S. unfold seg_agree in S. rewrite RA, RB in S.
+  rewrite !strip_run_res, !strip_run_wire in S.
+  destruct (S HnA HnB) as (S1 & S2 & _). split; assumption.
+Qed.
+
+Theorem client_segmentation_wb : forall oreq oresp scheme_ok path hs wA wB w0 csA csB t,
+  seq_scan oresp ->
+  nonempty_chunks csA -> nonempty_chunks csB -> concat csA = concat csB ->
+  (forall n x, oresp (concat csA) = OComplete n x -> n = blen (concat csA)) ->
+  strip_world wA = w_set_rds w0 (map RdData csA ++ t) ->
+  strip_world wB = w_set_rds w0 (map RdData csB ++ t) ->
+  let xA := client_handshake oreq oresp scheme_ok path hs wA in
+  let xB := client_handshake oreq oresp scheme_ok path hs wB in
+  hs_res xA <> HsFail HEAttack -> hs_res xB <> HsFail HEAttack ->
+  hs_res xA = hs_res xB /\ hs_wire (hs_log xA) = hs_wire (hs_log xB).
+Proof.
+  intros oreq oresp scheme_ok path hs wA wB w0 csA csB t Hscan HA HB Hcat Hnj EA EB xA xB HnA HnB.
+  subst xA xB.
+  pose proof (client_resume oreq oresp scheme_ok path hs wA) as RA.
+  pose proof (client_resume oreq oresp scheme_ok path hs wB) as RB.
+  rewrite EA in RA. rewrite EB in RB.
+  pose proof (client_segmentation oreq oresp scheme_ok path hs w0 csA csB t Hscan HA HB Hcat Hnj) as S.
+  cbv zeta in S. unfold seg_agree in S. rewrite RA, RB in S.
+  rewrite !strip_run_res, !strip_run_wire in S.
+  destruct (S HnA HnB) as (S1 & S2 & _). split; assumption.
+Qed.
